@@ -288,6 +288,10 @@ func (m *collection) mergerMain(stackDirtyMid, stackDirtyBase *segmentStack,
 		if stackDirtyMid != nil && stackDirtyMid.isEmpty() {
 			// Do this only for idle-compactions.
 			atomic.AddUint64(&m.stats.TotMergerEmptyDirtyMid, 1)
+			// The collection's stackDirtyMid field holds its own ref-count,
+			// also when it (usually) already is this very stack.
+			stackDirtyMid.addRef()
+
 			m.m.Lock() // Allow an empty stackDirtyMid to kick persistence.
 			stackDirtyMidPrev := m.stackDirtyMid
 			m.stackDirtyMid = stackDirtyMid
